@@ -32,7 +32,7 @@ XToks == { [id |-> 48879, dsz |-> 1, asz |-> 1, hl |-> 4, h |-> "x"],     \* val
 Srcs == { [method |-> 8,  crc |-> "r1", usize |-> 3, csize |-> 2, dt |-> DT, mode |-> 33261, rawid |-> "s1"],
           [method |-> 14, crc |-> "r2", usize |-> Thr32 + 1, csize |-> 1, dt |-> DT, mode |-> NoPerm, rawid |-> "s2"] }
 Aligns == {0, 1, 2, 4, 7}
-Comments == { [id |-> "", len |-> 0], [id |-> "c", len |-> Thr16], [id |-> "C", len |-> Thr16 + 1] }
+Comments == { [id |-> EmptyId, len |-> 0], [id |-> "c", len |-> Thr16], [id |-> "C", len |-> Thr16 + 1] }
 
 \* the compressed size the model's environment produces for the entry being closed
 CS == IF ~NeedsCs(w) THEN 0
@@ -50,9 +50,10 @@ Next ==
    \/ \E nm \in Names1, o \in Opts0, a \in Aligns :
          Room /\ StartFileAligned(nm, o, a, CS, "pad") /\ Call("StartFileAligned", <<nm, o, a>>)
    \/ \E k \in Chunks : /\ w.stats.len + k <= Thr32 + 3 /\ w.gap + k <= 3
-                        /\ WriteData(k, [len |-> w.stats.len + k, crc |-> Crc(w.stats.len + k)])
+                        /\ ~w.wtef
+                        /\ WriteData(k, [len |-> w.stats.len + k, crc |-> Crc(w.stats.len + k)], <<>>)
                         /\ Call("Write", <<k>>)
-   \/ \E t \in XToks : w.wtef /\ Len(w.xbuf) < MaxX /\ WriteExtra(<<t>>) /\ Call("WriteExtra", <<t>>)
+   \/ \E t \in XToks : w.wtef /\ Len(w.xbuf) < MaxX /\ WriteData(0, [len |-> 0, crc |-> ZeroCrc], w.xbuf \o <<t>>) /\ Call("WriteExtra", <<t>>)
    \/ EndExtra /\ Call("EndExtra", <<>>)
    \/ EndLocalStartCentral /\ Call("EndLocalStartCentral", <<>>)
    \/ \E nm \in Names, o \in Opts0 : Room /\ AddDir(DirName(nm), o, CS) /\ Call("AddDir", <<nm, o>>)
